@@ -1,4 +1,4 @@
-SPECIFICATION Spec
+SPECIFICATION SafetySpec
 CONSTANTS
   RetryOnAbort = FALSE
   Kinds = {"choice"}
@@ -6,7 +6,7 @@ CONSTANTS
   NPool = 4
   MaxLines = 2
   NAnswers = 18
-  Attempts = {0, 1, 2, 3}
+  Attempts = {0, 1, 2}
   NDefaults = 4
   Inter = {TRUE}
 INVARIANT TypeOK
@@ -22,4 +22,3 @@ INVARIANT P_eof
 INVARIANT P_confirm
 INVARIANT A_prompts
 INVARIANT Emit
-PROPERTY Termination
